@@ -483,6 +483,9 @@ class Resolver:
                                 out.append(got)
                         break
             return out
+        if isinstance(expr, ast.Call) and isinstance(expr.func, ast.Name) and expr.func.id == "cast" and len(expr.args) == 2:
+            got = self.resolve_class(mod, expr.args[0])
+            return [got] if got is not None else []
         if isinstance(expr, ast.Call):
             callees = self.callees(fn, expr)
             out = []
